@@ -53,3 +53,21 @@ Proof.
   destruct (cre p e) as [[s1 e1]|]; [|reflexivity]. destruct (cre p e1) as [[s2 e2]|]; [discriminate|reflexivity].
 Qed.
 Print Assumptions C19_repeated_creator_vanishes.
+
+(* the identity behind the generalised doubles factorisations (FactorThm.v): the product of two one-body operators over n
+   spin-orbital positions is the one-body operator of the matrix product minus the two-body operator of the outer product,
+       (sum_ps y_ps a†_p a_s)(sum_qr z_qr a†_q a_r) = sum_pr (y z)_pr a†_p a_r - sum_pqsr y_ps z_qr a†_p a†_q a_s a_r,
+   on every vector, every n, every pair of matrices over every commutative ring: a sum of such products reproduces a two-body
+   generator exactly when the outer products sum to its tensor and the matrix products are reported as the one-body
+   remainder (non-vacuity: FactorThm.one_body_product_example) *)
+From Coq Require Import Ring.
+From FQE Require Import FactorThm.
+Theorem C19_product_of_one_body_operators :
+  forall (R : Type) (rO rI : R) (radd rmul rsub : R -> R -> R) (ropp : R -> R),
+  ring_theory rO rI radd rmul rsub ropp eq ->
+  forall n (y z : nat -> nat -> R) (V : vec R) d, wide R n V ->
+  coeff R rO radd (act_poly R rmul ropp (ob R n y) (act_poly R rmul ropp (ob R n z) V)) d
+  = radd (coeff R rO radd (act_poly R rmul ropp (ob R n (matmul R rO radd rmul n y z)) V) d)
+         (coeff R rO radd (act_poly R rmul ropp (tb R n (fun p q s r => ropp (rmul (y p s) (z q r)))) V) d).
+Proof. exact one_body_product. Qed.
+Print Assumptions C19_product_of_one_body_operators.
